@@ -733,7 +733,11 @@ func ruleRawPath(c *Ctx) {
 		}
 		switch x := v.(type) {
 		case *ssa.Phi:
-			for _, e := range x.Edges {
+			live := liveBlocks(x.Block().Parent())
+			for k, e := range x.Edges {
+				if live != nil && !live[x.Block().Preds[k]] {
+					continue // an edge a constant test has disabled
+				}
 				leaves(e, depth+1, seen, out)
 			}
 		case *ssa.Slice:
